@@ -40,6 +40,7 @@ OUTCOME = {"ok": "addSuccess", "er": "addError"}
 import datetime
 
 RAW_TIME = datetime.datetime(2002, 2, 2, tzinfo=datetime.timezone.utc)
+T0 = datetime.datetime(2001, 1, 1, tzinfo=datetime.timezone.utc)
 
 
 class MakeFault(Exception):
@@ -91,6 +92,18 @@ class SubSuite:
                               timestamp=None)
             elif t == "rawt":
                 result.status(test_id=tid_of(self.w, i), test_status="success", timestamp=RAW_TIME)
+            elif t == "timed":
+                # explicit times, the worker's own tag, and a pause between startTest and the outcome so that tests
+                # of different workers overlap
+                test = PlaceHolder(tid_of(self.w, i))
+                d = 100 * self.w + 10 * i
+                result.time(T0 + datetime.timedelta(seconds=d + 1))
+                result.startTest(test)
+                result.tags({"w%d" % self.w}, set())
+                self.ex.sch.yield_point("local")
+                result.time(T0 + datetime.timedelta(seconds=d + 2))
+                result.addSuccess(test)
+                result.stopTest(test)
             else:
                 out = OUTCOME.get(t, t)
                 PlaceHolder(tid_of(self.w, i), outcome=out).run(result)
@@ -119,24 +132,40 @@ class CallerResult:
         except Exception:
             return -1
 
-    def _call(self, name, test=None):
+    def _call(self, name, test=None, v=None):
         sch = self.ex.sch
         ct = sch.yield_point("call", call=name)
         thr = ct.id if ct is not None else -1
         sems = sch.semaphores
         h = sems[0].holder() if sems else None
-        e = {"thr": thr, "call": name, "v": self._v(test, thr) if test is not None else 0, "h": FREE if h is None else h}
+        if v is None:
+            v = self._v(test, thr) if test is not None else 0
+        e = {"thr": thr, "call": name, "v": v, "h": FREE if h is None else h}
         self.log.append(e)
         sch.note(entry=e)
 
     def time(self, a):
-        self._call("time")
+        # explicit times given by the scripted tests are T0 + (id+1 | id+2) seconds; anything else (the real clock) is 0
+        v = 0
+        if isinstance(a, datetime.datetime) and a.tzinfo is not None:
+            d = (a - T0).total_seconds()
+            if 0 < d < 1000 and d == int(d):
+                v = int(d)
+        self._call("time", v=v)
 
     def tags(self, new_tags, gone_tags):
-        self._call("tags")
+        # a worker's own tag is "w<k>": v = k; anything else (tags of several workers merged, gone tags) is -1
+        v = -1
+        if len(new_tags) == 1 and not gone_tags:
+            (t,) = tuple(new_tags)
+            if isinstance(t, str) and t[:1] == "w" and t[1:].isdigit():
+                v = int(t[1:])
+        self._call("tags", v=v)
 
     def startTest(self, test):
         self._call("startTest", test)
+        if test.id() in self.ex.tfault_ids:
+            raise CallerFault("the caller's result raises at startTest(%s)" % test.id())
 
     def stopTest(self, test):
         self._call("stopTest", test)
@@ -240,6 +269,8 @@ class Execution:
                 raise tlc.MachineryError("C13: scenario outside the domain: raw event with its own route code in a worker "
                                          "whose route code is None")
         self.subs = [SubSuite(self, w, sc["tests"], sc["raises"]) for w, sc in enumerate(script, 1)]
+        # suite variant: the caller's result raises at startTest of worker w's i-th test (script[w].tfault = i)
+        self.tfault_ids = {tid_of(w, sc["tfault"]) for w, sc in enumerate(script, 1) if sc.get("tfault")}
         self.result = CallerResult(self) if variant == "suite" else CallerStream(self)
 
     # -- scripted collaborators ---------------------------------------------------------------
@@ -405,7 +436,8 @@ class Execution:
     def trace(self, complete):
         script = self.script
         if self.variant == "suite":
-            script = [{"tests": [OUTCOME.get(t, t) for t in sc["tests"]], "raises": sc["raises"]} for sc in script]
+            script = [{"tests": [OUTCOME.get(t, t) for t in sc["tests"]], "raises": sc["raises"],
+                       "tfault": sc.get("tfault", 0)} for sc in script]
         if self.variant == "stream":
             script = [dict(tests=sc["tests"], raises=sc["raises"], route="none" if self.routes[w] is None else self.routes[w])
                       for w, sc in enumerate(script, 1)]
@@ -497,8 +529,10 @@ def replay_export(variant, beh):
 # scenarios
 
 
-def Sc(tests=(), raises=False, route=NOFAULT):
+def Sc(tests=(), raises=False, route=NOFAULT, tfault=0):
     d = {"tests": list(tests), "raises": {False: "no", True: "exc"}.get(raises, raises)}
+    if tfault:
+        d["tfault"] = tfault
     if route != NOFAULT:  # (None is a legal route code)
         d["route"] = "none" if route is None else route
     return d
@@ -513,6 +547,13 @@ def systematic_scenarios(tier):
     sc.append(("suite", s2, N, 1, N, 2))
     sc.append(("suite", s2, 1, N, N, 2))
     sc.append(("suite", [Sc(["er"], "base"), Sc([])], N, N, N, 2))
+    # overlapping tests of two workers, each with its own explicit times and tag: every block must carry its own
+    tm2 = [Sc(["timed"]), Sc(["timed", "ok"])]
+    sc.append(("suite", tm2, N, N, N, 2))
+    sc.append(("suite", tm2, N, 1, N, 1))
+    # the caller's result raises at startTest of a test: broken runner reported, run() returns
+    sc.append(("suite", [Sc(["ok", "er"], tfault=1), Sc(["timed"])], N, N, N, 1))
+    sc.append(("suite", [Sc(["timed", "ok"], True, tfault=2), Sc([])], N, N, N, 1))
     t2 = [Sc(["raw", "rawn"]), Sc(["rawt"])]
     sc.append(("stream", t2, N, N, N, 2))
     sc.append(("stream", t2, N, N, 1, 2))
@@ -565,9 +606,13 @@ def systematic_scenarios(tier):
 def random_scenario(rng):
     variant = rng.choice(("suite", "stream"))
     n = rng.choice((1, 2, 2, 3, 3, 4))
-    kinds = ("ok", "er") if variant == "suite" else ("ok", "er", "raw", "rawn", "rawt")
+    kinds = ("ok", "er", "timed") if variant == "suite" else ("ok", "er", "raw", "rawn", "rawt")
     script = [Sc([rng.choice(kinds) for _ in range(rng.randint(0, 3))], rng.choice((False, False, False, False, True, True, "base")))
               for _ in range(n)]
+    if variant == "suite" and rng.random() < 0.2:
+        w = rng.randrange(n)
+        if script[w]["tests"]:
+            script[w]["tfault"] = rng.randint(1, len(script[w]["tests"]))
     if variant == "stream" and n >= 2 and rng.random() < 0.5:
         mode = rng.choice(("all-a", "all-none", "two-none", "two-a"))
         for w, sc in enumerate(script):
@@ -595,7 +640,7 @@ def random_scenario(rng):
 def abstract(tr):
     return {
         "variant": tr["variant"],
-        "script": [("".join({"addSuccess": "o", "addError": "e", "rawn": "n", "rawt": "t"}.get(t, t[0]) for t in s["tests"]) or "-") + {"no": "", "exc": "!", "base": "!!"}[s["raises"]] + ("@" + s["route"] if "route" in s else "") for s in tr["script"]],
+        "script": [("".join({"addSuccess": "o", "addError": "e", "rawn": "n", "rawt": "t", "timed": "T"}.get(t, t[0]) for t in s["tests"]) or "-") + {"no": "", "exc": "!", "base": "!!"}[s["raises"]] + ("@" + s["route"] if "route" in s else "") + ("/f%d" % s["tfault"] if s.get("tfault") else "") for s in tr["script"]],
         "faults": {k: tr[k] for k in ("makeFault", "intrAt", "cfault") if tr.get(k, NOFAULT) != NOFAULT},
         "schedule": "".join(str(e["thr"]) for e in tr["ev"]),
         "end": tr["ev"][-1]["main"] + ":" + tr["ev"][-1]["prop"] if tr["ev"] else "",
@@ -639,8 +684,8 @@ def run(tier, pid="C13"):
     rep.assume("'told to stop' = stop() invoked on the worker's result (the stream variant's startTestRun resets "
                "shouldStop; a stop() delivered before the worker starts is then forgotten - recorded, not alarmed on)")
     rep.assume("workers that had already finished when the aborting exception arrived need not be told to stop")
-    rep.assume("ConcSuite.tla models each block of ThreadsafeForwardingResult call by call without target faults "
-               "(atomicity under faults is C12)")
+    rep.assume("ConcSuite.tla models each block of ThreadsafeForwardingResult call by call; the only target fault "
+               "is the caller's result raising at startTest of a scripted test (atomicity under faults is C12)")
     rep.assume("'reported as broken-runner' is required for run() raising an Exception; for a BaseException (what the "
                "code does not catch) only the completion message / termination is required")
     rep.assume("raw stream events with their own route code are only emitted by workers whose route code is not None")
@@ -656,7 +701,7 @@ def run(tier, pid="C13"):
     from concurrent.futures import ThreadPoolExecutor
 
     pool = ThreadPoolExecutor(2)
-    mc = {"suite": ["cs_mcQ.cfg"], "stream": ["css_mcQ.cfg", "css_mcB.cfg", "css_mcSh.cfg"]}
+    mc = {"suite": ["cs_mcQ.cfg", "cs_mcTm.cfg"], "stream": ["css_mcQ.cfg", "css_mcB.cfg", "css_mcSh.cfg"]}
     if not quick:
         mc["suite"] += ["cs_mc3.cfg", "cs_mc4.cfg", "cs_mc13.cfg"]
         mc["stream"] += ["css_mc3.cfg", "css_mc4.cfg", "css_mc13.cfg", "css_mcSh3.cfg"]
@@ -681,7 +726,7 @@ def run(tier, pid="C13"):
     def record(trace, dl, ex, kind):
         v = trace["variant"]
         traces[v].append(trace)
-        faulty = fault_sig(trace) != "nofault" or any(s["raises"] != "no" for s in trace["script"])
+        faulty = fault_sig(trace) != "nofault" or any(s["raises"] != "no" or s.get("tfault") for s in trace["script"])
         nt = (len(trace["script"]) >= 1 and switches(trace["ev"]) >= 2) or faulty
         n = len(traces["suite"]) + len(traces["stream"])
         rep.case(
@@ -763,7 +808,7 @@ def run(tier, pid="C13"):
         for cfg in mc[v]:
             r = jobs[(v, cfg)].result()
             tlc.require_ok(r, "C13 " + cfg)
-            tlc.require_coverage(r, ACTIONS[v], "C13 " + cfg)
+            tlc.require_coverage(r, ACTIONS[v] + (["DoWLocal"] if cfg == "cs_mcTm.cfg" else []), "C13 " + cfg)
             rep.add_tlc(r, cfg)
     pool.shutdown()
 
